@@ -59,7 +59,7 @@ class Run:
         return self._pools
 
     # ------------------------------------------------------------ TLC generator (Mode A + B)
-    def generate(self, module, cfg, mode="", size=0, name=None, timeout=1800, workers=None, idbase=0, heap="6g"):
+    def generate(self, module, cfg, mode="", size=0, name=None, timeout=10800, workers=None, idbase=0, heap="8g"):
         """runs a Gen_* root: invariants = Mode A on the specification, states = cases.
         returns path of the case file with ids assigned"""
         name = name or "%s_%s_%s" % (module, mode, size)
@@ -130,7 +130,7 @@ class Run:
         return out
 
     # ------------------------------------------------------------ TLC trace validation (Mode C)
-    def validate(self, module, obs, cfg="Trace.cfg", chunks=None, timeout=1800, mode="", size=0, heap="5g",
+    def validate(self, module, obs, cfg="Trace.cfg", chunks=None, timeout=7200, mode="", size=0, heap="5g",
                  shard=20000, parallel=4):
         """returns {id: verdict}; every record must have been judged.  Large observation
         files are split into shards of `shard` records, validated by `parallel` JVMs at a time."""
@@ -251,7 +251,10 @@ class Run:
         for i, (rec, _) in enumerate(pool):
             other = pool[(i + 1) % len(pool)][0]
             r = {k: v for k, v in rec.items() if k != "obs"}
-            r["obs"] = other["obs"]
+            r["obs"] = dict(other["obs"])
+            for inp in ("src", "srcs"):      # the rendered source is an input the harness echoes, not an observation
+                if inp in rec["obs"]:
+                    r["obs"][inp] = rec["obs"][inp]
             r["id"] = i + 1
             swapped.append(r)
         path = os.path.join(vf.scratch(), "selftest_%s.ndjson" % module)
